@@ -15,7 +15,7 @@ func init() {
 	Registry["C06"] = c06
 	Metas["C06"] = Meta{Level: "other", NeedCG: true,
 		Technique: "static analysis: ordering (dominance / reachability) of the durable writes on the three commit paths, sibling agreement, descriptor-last and sync-write rules over resolved call sites, effect-set comparison between the live post-commit path and crash recovery",
-		Explain: "Crash points cannot be enumerated statically; decided is the ORDER and AGREEMENT of durable writes that recovery relies on. (R1) pbft path: SaveBlock is never after ApplyBlock, ApplyBlock dominates State.Save which dominates updateToState; in ExecBlock SetBlockAndValidators dominates SaveIntermediate which dominates the success return; in the EVM app's OnCommit state commit < trie-db commit < SaveLastBlock; (R2) the fast-sync executor and the raft FSM perform the same SaveBlock < ApplyBlock < Save sequence on the state they publish; (R3) in BlockStore.SaveBlock no store write follows the height descriptor and both sanity checks precede the first write; (R4) the watermark keys (state, intermediate state, block-store descriptor, app last block) are only ever written with the synchronous variant; (R5) every State field assigned after the application commit on the live path is also restored by the 'crashed between app commit and State.Save' branch of RecoverFromCrash, and that branch loads the intermediate state before overwriting hashes; (R6) RecoverFromCrash runs on every start with a genesis and its error is fatal. (R1 also) the application commit writes its append-only receipt/key-history records after its height watermark, and finalizeCommit skips SaveBlock only on the store's height descriptor. NOT decided: behaviour at each crash point, LevelDB/batch atomicity, repeated crashes.",
+		Explain: "Crash points cannot be enumerated statically; decided is the ORDER and AGREEMENT of durable writes that recovery relies on. (R1) pbft path: SaveBlock is never after ApplyBlock, ApplyBlock dominates State.Save which dominates updateToState; in ExecBlock SetBlockAndValidators dominates SaveIntermediate which dominates the success return; in the EVM app's OnCommit state commit < trie-db commit < SaveLastBlock; (R2) the fast-sync executor and the raft FSM perform the same SaveBlock < ApplyBlock < Save sequence on the state they publish; (R3) in BlockStore.SaveBlock no store write follows the height descriptor and both sanity checks precede the first write; (R4) the watermark keys (state, intermediate state, block-store descriptor, app last block) are only ever written with the synchronous variant; (R5) every State field assigned after the application commit on the live path is also restored by the 'crashed between app commit and State.Save' branch of RecoverFromCrash, and that branch loads the intermediate state before overwriting hashes; (R6) RecoverFromCrash runs on every start with a genesis and its error is fatal. (R1 also) the application commit writes its append-only receipt/key-history records after its height watermark, and finalizeCommit skips SaveBlock only on the store's height descriptor. (R5 also) LoadIntermediate hands every field of the saved intermediate state to the parameter of the same role; (R6 also) the fast-sync pool starts at the reconciled store height. NOT decided: behaviour at each crash point, LevelDB/batch atomicity, repeated crashes.",
 		Assume: []string{"goleveldb SetSync is durable on return", "a single Set is atomic"},
 	}
 }
